@@ -4,7 +4,8 @@ from __future__ import annotations
 
 import ast
 
-from ..core.repo import (AnalysisError, Repo, call_name, calls_in, definitions, dotted, is_const,
+from ..core.cfg import CFG
+from ..core.repo import (AnalysisError, Repo, call_name, calls_in, definitions, dotted, func_params, is_const,
                          kwarg, names_in, unparse, walk_no_nested_defs)
 from ..domains.kat import COL, ROW, Comp, Ext, Flat, KAT, Pair
 from .c09 import _partition_idiom
@@ -197,6 +198,31 @@ def run(check, repo: Repo) -> None:
     lt = unparse(spi)
     check.decide("self._last_patch_positions_px = self.scan_positions_px.clone()" in lt, "C02-R5", "_set_patch_indices records the positions the indices were built from", "", dmod.line(spi),
                  fail_detail="the reference positions for the update test are not recorded")
+
+    # ---- R8 per-call setup dominates the epoch loop ----------------------------------------------------------------------
+    rcfg = CFG(rec)
+    epoch = next((n for n in walk_no_nested_defs(rec) if isinstance(n, ast.For) and any(isinstance(x, ast.For) for x in ast.walk(ast.Module(body=n.body, type_ignores=[])))), None)
+    if epoch is None:
+        raise AnalysisError("reconstruct: epoch loop (a for loop containing the batch loop) not found")
+    loop_nodes = rcfg.nodes_of(epoch)
+    if not loop_nodes:
+        raise AnalysisError("reconstruct: epoch loop has no CFG node")
+    loop_node = min(loop_nodes)
+    lt_param = "loss_type" if "loss_type" in func_params(rec) else None
+    for callee, argcheck, why in (
+            ("self.dset._set_targets", lt_param, "a continued reconstruction that switches the loss family keeps the stale amplitude/intensity targets"),
+            ("self.compute_propagator_arrays", None, "the multislice propagators are not those of the current slice thicknesses / tilt")):
+        sites = [c for c in calls_in(rec) if (call_name(c) or "") == callee]
+        if not sites:
+            check.violated("C02-R8", f"reconstruct: `{callee}(…)` runs on every path to the epoch loop", f"no call of {callee} in reconstruct: {why}", tmod.line(rec))
+            continue
+        via = [n for c in sites for n in rcfg.node_containing(c)]
+        ok = bool(via) and rcfg.all_paths_pass_through(rcfg.entry, loop_node, via)
+        if ok and argcheck is not None:
+            ok = any(c.args and unparse(c.args[0]) == argcheck for c in sites)
+        check.decide(ok, "C02-R8", f"reconstruct: `{callee}(…)` runs on every path to the epoch loop" + (f" with this call's `{argcheck}`" if argcheck else ""), "",
+                     tmod.line(sites[0]), fail_detail=f"a path from the entry of reconstruct reaches the epoch loop without `{callee}`"
+                     + (f" (or it is not given `{argcheck}`)" if argcheck else "") + f": {why}")
 
     # ---- R7 stage wiring --------------------------------------------------------------------------------------------------------
     rt = unparse(rec)
